@@ -21,7 +21,7 @@ use crate::{
 };
 
 const ALTS: u16 = 3;
-const SCENS: [Scen; 7] = [Scen::S1, Scen::S1w, Scen::S2, Scen::S3, Scen::S4a, Scen::S4r, Scen::S5];
+const SCENS: [Scen; 8] = [Scen::S1, Scen::S1w, Scen::S2, Scen::S3, Scen::S4a, Scen::S4r, Scen::S5, Scen::S6];
 
 #[derive(Default)]
 struct Agg {
